@@ -6,6 +6,7 @@ import QipVerif.Lemmas.ConcatGap
 import QipVerif.Lemmas.ConcatAllGaps
 import QipVerif.Lemmas.ConcatSrcCompile
 import QipVerif.Gen.ConcatSrc
+import QipVerif.Lemmas.PulseStore
 /-!
 # C12 — compiled control pulses are exactly the scheduled instruction waveforms
 
@@ -526,5 +527,24 @@ theorem maxstart_rounding_counterexample :
   · decide +kernel
   · show (0 : Rat) + 1 < 1 - 1/10000000000 + 10000; decide +kernel
   · intro sw h; simp at h
+
+/-! ### The processor after `ModelProcessor.load_circuit`
+
+`load_circuit` stores the compiled maps with `set_coeffs(coeff_map)` (pulses created in the dict's order, each carrying its
+label) and `set_tlist(tlist_map)` (the pulse at position `get_pulse_dict()[label]` gets the grid).  `Store.storePulses` models
+the two calls on abstract labels and array numbers. -/
+
+/-- **The processor holds, under every label, the grid and the coefficients compiled for that label** — whatever the labels
+are (strings, integers, …), in whatever order the channels were created: with the keys of `coeff_map` distinct (a dict), the
+keys of `tlist_map` distinct and among them, `load_circuit` succeeds and the pulse list is `coeff_map`'s items in order, each
+with `tlist_map[label]`.  Hence every theorem about the returned maps is a theorem about the processor's pulses. -/
+theorem stored_pulses_are_compiled_maps (coeffs tlists : List (Nat × Nat)) (hc : (coeffs.map (·.1)).Nodup)
+    (ht : (tlists.map (·.1)).Nodup) (hm : ∀ lt ∈ tlists, lt.1 ∈ coeffs.map (·.1)) :
+    Store.storePulses coeffs tlists = some (coeffs.map fun lc => ⟨lc.1, Store.tlOf lc.1 tlists, lc.2⟩) :=
+  Store.storePulses_eq coeffs tlists hc ht hm
+
+-- non-vacuity: integer labels 2, 0, 1 created in that order; grid k of the map belongs to its k-th label
+example : Store.storePulses [(2, 0), (0, 1), (1, 2)] [(2, 0), (0, 1), (1, 2)] =
+    some [⟨2, some 0, 0⟩, ⟨0, some 1, 1⟩, ⟨1, some 2, 2⟩] := by decide
 
 end QipVerif.C12
